@@ -71,7 +71,7 @@ impl<R: Rt> TaskEnv<R> {
         p.push(tag);
         p.push(self.nsub);
         self.nsub += 1;
-        TaskEnv { rt: self.rt.clone(), sink: self.sink.clone(), path: p, nreq: 0, nemit: 0, nsub: 0, last: self.last, handles: self.handles.clone() }
+        TaskEnv { rt: self.rt.clone(), sink: self.sink.clone(), path: p, nreq: 0, nemit: 0, nsub: 0, last: self.last, handles: self.handles.iter().take(MAX_HANDLES).cloned().collect() }
     }
     fn next_op(&mut self, kind: u8) -> Op {
         let mut p = self.path.clone();
@@ -86,6 +86,8 @@ const T_JOIN: u16 = 2000;
 const T_SELECT: u16 = 3000;
 const T_EXPORT: u16 = 7000;
 const T_KEEP: u16 = 4000;
+/// join handles a task keeps (`Join` / `AbortT` / `Export` address handles 0 and 1)
+const MAX_HANDLES: usize = 4;
 
 /// a waker-retaining construct is left on completion *and* when a losing select branch is dropped
 struct Retain<R: Rt>(R);
@@ -258,7 +260,10 @@ fn spawn_child<R: Rt>(env: &mut TaskEnv<R>, body: Vec<Stmt>) {
             traced(sink, path, run(e, body).map(|_| ()).boxed())
         }),
     );
-    env.handles.push(h);
+    // (statements address the first few handles only; an unbounded list would be copied into every child)
+    if env.handles.len() < MAX_HANDLES {
+        env.handles.push(h);
+    }
 }
 
 /// the root future of a visible task: logs the witness events
